@@ -57,6 +57,44 @@ def run(chk) -> None:
     _r33a(chk, repo)
     _r33b(chk, repo)
     _r33c(chk, repo)
+    chk.rule("R33d", "the human-readable CLI output prints a file's violations in the order of a sort on (line_no, line_pos) made at the print site: get_violations() appends the unused-noqa warnings after the sorted list, so the list handed over is not in source order by itself")
+    _r33d(chk, repo)
+
+
+FORMATTERS = "src/sqlfluff/cli/formatters.py"
+
+
+def _r33d(chk, repo) -> None:
+    n = 0
+    for q, f in repo.mod(FORMATTERS).functions():
+        loops = []
+        for l in walk_local(f):
+            if isinstance(l, ast.For) and isinstance(l.target, ast.Name):
+                if any(isinstance(c, ast.Call) and last_attr(c) == "format_violation" and c.args and isinstance(c.args[0], ast.Name) and c.args[0].id == l.target.id for b in l.body for c in ast.walk(b)):
+                    loops.append(l)
+        if not loops:
+            continue
+        cfg = cfg_of(f)
+        for l in loops:
+            it = l.iter if not isinstance(l.iter, ast.Name) else sole_expr_origin(cfg, l.iter, l)
+            # only the listing of a linted file's violations (handed in as a parameter by the
+            # dispatchers, fed from LintedFile.get_violations()); the `parse` command's listing of a
+            # ParsedString's templating/lexing/parsing errors is not the subject of the property
+            base = it.args[0] if isinstance(it, ast.Call) and call_name(it) == "sorted" and it.args else (it if it is not None else l.iter)
+            if not (isinstance(base, ast.Name) and param_origin(cfg, base, cfg.stmt_of(base) or l) is not None):
+                chk.count("R33d.other_listings")
+                continue
+            n += 1
+            sf = _sorted_facts(cfg, it, cfg.stmt_of(it) or l) if it is not None else None
+            ok = sf is not None and sf.ascending and sf.components is not None and sf.components[:2] == ["$.line_no", "$.line_pos"]
+            chk.require(
+                ok, "R33d", l,
+                f"{q} prints the violations in the order of `{short(l.iter, 40)}`, which is not a sort on (line_no, line_pos) made here: the list from get_violations() ends with the "
+                "unused-noqa warnings whatever their line, so with --warn-unused-ignores the output is not in source order",
+                detail=f"{q}: printed violations are sorted by (line_no, line_pos) at the print site",
+            )
+    chk.count("R33d.print_loops", n)
+    chk.floor("R33d.print_loops", 1)
 
 
 def _conditions(cfg, stmt):
@@ -401,6 +439,23 @@ def _r33a(chk, repo) -> None:
                         if same and ((cfg.dominates(st, a) and must_pass(cfg, st, fo[0], [a])) or (cfg.dominates(a, st) and must_pass(cfg, a, fo[0], [st]))):
                             rec = True
                 chk.require(fresh and rec, "R33a", node, "the signature of a kept violation is not recorded in the seen set (or the set outlives the call): later duplicates are kept as well", detail="append: kept signature recorded")
+                # the seen set only grows while the input is iterated
+                shrink = [c for c in calls_in(dd) if isinstance(c.func, ast.Attribute) and isinstance(c.func.value, ast.Name) and c.func.value.id == seen.id
+                          and c.func.attr in ("clear", "discard", "remove", "pop", "difference_update", "intersection_update", "symmetric_difference_update")]
+                loop_nodes = {id(x) for x in ast.walk(fo[0])}
+                rebound = [o for o in so if o.stmt is not None and id(o.stmt) in loop_nodes]
+                for x in ast.walk(fo[0]):
+                    if isinstance(x, (ast.Assign, ast.AugAssign, ast.AnnAssign)):
+                        tg = x.targets if isinstance(x, ast.Assign) else [x.target]
+                        if any(isinstance(t, ast.Name) and t.id == seen.id for t in tg):
+                            rebound.append(x)
+                chk.require(
+                    not shrink and not rebound, "R33a", (shrink[0] if shrink else node),
+                    f"the seen set `{seen.id}` is emptied or re-created while the violations are iterated ("
+                    + (short(shrink[0], 40) if shrink else "re-bound inside the loop")
+                    + "): a violation whose copy comes later in the list (the same rule reporting from another rendered variant) is kept twice",
+                    detail="append: the seen set only grows during the pass",
+                )
     chk.count("R33a.dedupe_append_sites", n_app)
     if kept_names:
         chk.floor("R33a.dedupe_append_sites", 1)
@@ -637,6 +692,30 @@ _TRIPLE = (
 _SIG_RETURN = "        return (self.check_tuple(), self.description, fix_raws, tuple(_source_fixes))\n"
 
 VARIANTS = [
+    Variant(
+        "cli-output-relies-on-the-order-it-is-given", FORMATTERS,
+        "            s = sorted(violations, key=lambda v: (v.line_no, v.line_pos))\n            for violation in s:\n",
+        "            for violation in violations:\n",
+        "R33d", "_format_file_violations", "seeded C33-4: unused-noqa warnings are printed last whatever their line",
+    ),
+    Variant(
+        "cli-output-sorted-by-code", FORMATTERS,
+        "            s = sorted(violations, key=lambda v: (v.line_no, v.line_pos))\n",
+        "            s = sorted(violations, key=lambda v: (v.rule_code(), v.line_no, v.line_pos))\n",
+        "R33d", "_format_file_violations",
+    ),
+    Variant(
+        "quiet-cli-output-sorted-in-the-loop-header", FORMATTERS,
+        "            s = sorted(violations, key=lambda v: (v.line_no, v.line_pos))\n            for violation in s:\n",
+        "            for violation in sorted(violations, key=lambda err: (err.line_no, err.line_pos), reverse=False):\n",
+        "QUIET", None, "R33d: the sort inline, lambda parameter renamed, reverse=False spelled out",
+    ),
+    Variant(
+        "dedupe-buffer-reset-per-rule-code", LFILE,
+        "        for v in violations:\n            signature = v.source_signature()\n",
+        "        last_code = None\n        for v in violations:\n            if v.rule_code() != last_code:\n                last_code = v.rule_code()\n                dedupe_buffer = set()\n            signature = v.source_signature()\n",
+        "R33a", "deduplicate_in_source_space", "seeded C33-3 (re-created instead of cleared): copies of a violation from two variants are separated by other codes",
+    ),
     # behaviour-preserving refactors: must stay quiet
     Variant(
         "quiet-alternate-variant-through-locals", LINTER,
